@@ -81,10 +81,11 @@ def build(name, axis, transient):
     grad = [sp.diff(phi, xi[i]) / h[i] for i in range(nd)]
     div_uphi = sum(sp.diff(J * u[i] * phi / h[i], xi[i]) for i in range(nd)) / J
     div_Dgrad = sum(sp.diff(J * D * grad[i] / h[i], xi[i]) for i in range(nd)) / J
-    gamma = P['al'] * sp.diff(phi, P['t']) + div_uphi - div_Dgrad + beta * phi
+    alpha = P['al'] * (1 + sp.Rational(3, 10) * sp.sin(0.5 * xi[0] + 0.1))      # per-cell storage coefficient
+    gamma = alpha * sp.diff(phi, P['t']) + div_uphi - div_Dgrad + beta * phi
     args = list(xi) + [P[k] for k in PARAMS]
     mk = lambda e: sp.lambdify(args, e, modules='numpy', cse=True)
-    out = dict(phi=mk(phi), gamma=mk(gamma), D=mk(D), beta=mk(beta), u=[mk(e) for e in u], dn=[mk(e) for e in grad], nd=nd, kinds=kinds)
+    out = dict(phi=mk(phi), gamma=mk(gamma), D=mk(D), beta=mk(beta), alpha=mk(alpha), u=[mk(e) for e in u], dn=[mk(e) for e in grad], nd=nd, kinds=kinds)
     return out
 
 
